@@ -432,7 +432,50 @@ func translatedPresent(m *model) bool {
 	return false
 }
 
+// Seal: the data types that are read-only for the VM are written while
+// unlocked, then some lock changes are made and the locks are sealed -
+// SetLock(0, x) with either value of x, the second argument has no meaning
+// for the seal. From then on every one of those types refuses writes, on
+// every key, the stored values stay what they were, and no SetLock call
+// changes that.
+func Seal(v *vrt.Ctx) {
+	which := v.Param("backend")
+	ctx := context.Background()
+	store := Open(v, ctx, which)
+	ro := []uint8{db.DATATYPE_BIN, db.DATATYPE_MENU, db.DATATYPE_TEMPLATE, db.DATATYPE_STATICLOAD}
+	for _, t := range ro {
+		v.Assume(store.SetLock(t, false) == nil)
+		store.SetPrefix(t)
+		v.Assume(store.Put(ctx, []byte("k"), []byte{'a' + t}) == nil)
+	}
+	// any lock state before the seal
+	for _, t := range ro {
+		if v.Bool("locked-before-the-seal") {
+			v.Assume(store.SetLock(t, true) == nil)
+		}
+	}
+	v.Assert(store.SetLock(0, v.Bool("seal-argument")) == nil, "C10/setlock-ok")
+	t := ro[v.Choice("type", len(ro))]
+	if v.Bool("try-to-unlock") {
+		v.Assert(store.SetLock(t, false) != nil, "C10/sealed-locks-cannot-be-changed")
+	}
+	store.SetPrefix(t)
+	key := "k"
+	if v.Bool("new-key") {
+		key = "n"
+	}
+	v.Assert(store.Put(ctx, []byte(key), []byte("X")) != nil, "C10/locked-write-is-refused")
+	got, err := store.Get(ctx, []byte("k"))
+	v.Assert(err == nil && len(got) == 1 && got[0] == 'a'+t, "C10/refused-write-changes-nothing")
+	if key == "n" {
+		_, err = store.Get(ctx, []byte("n"))
+		v.Assert(err != nil && db.IsNotFound(err), "C10/refused-write-changes-nothing")
+	}
+	v.Cover("C10/sealed")
+}
+
 var Harnesses = map[string]func(*vrt.Ctx){
+	"Seal": Seal,
 	"Hist":   Hist,
 	"Scoped": Scoped,
 	"DumpFs": DumpFs,
